@@ -10,6 +10,8 @@ package dastard
 import (
 	"encoding/base64"
 	"fmt"
+	"os"
+	"path/filepath"
 	"strings"
 	"time"
 
@@ -49,7 +51,11 @@ func (c *c11World) drawRequest() *c11Req {
 			return c.reqWriteComment()
 		}
 	}
-	switch k := simrt.Draw(34); {
+	switch k := simrt.Draw(38); {
+	case k >= 36:
+		return c.reqMapUnload()
+	case k >= 34:
+		return c.reqMapLoad()
 	case k == 0:
 		return c.reqSendAll()
 	case k <= 5:
@@ -159,11 +165,13 @@ func (c *c11World) reqTriggers() *c11Req {
 	return r
 }
 
-func (c *c11World) reqLengths() *c11Req {
+func (c *c11World) reqLengths() *c11Req { return c.reqLengthsFam(simrt.Draw(7)) }
+
+func (c *c11World) reqLengthsFam(fam int) *c11Req {
 	var ok bool
 	r := &c11Req{kind: "ConfigurePulseLengths", needsSource: true, queued: true}
 	ns, np := c.nsamp, c.npre
-	switch simrt.Draw(7) {
+	switch fam {
 	case 0:
 		// unchanged
 		if c.lenKnown {
@@ -323,10 +331,10 @@ func (c *c11World) reqWriteControlFam(fam int) *c11Req {
 		if simrt.Draw(5) == 4 {
 			cfg.WriteOFF = true // needs projectors: not modelled
 			c.offMaybe = true
-		} else if c.writing == c11WOff {
-			r.expect = c11OK
+		} else if c.writing == c11WOff && !c.mapMaybe {
+			r.expect = c11OK // (with a TES map loaded the map must also fit the channels: left open)
 		}
-		r.kind = "WriteControl-START"
+		r.kind, r.isStart = "WriteControl-START", true
 		r.onOK = func() { c.writing, c.commentOK = c11WOn, false }
 		r.onErr = func() {
 			if c.writing == c11WOff {
@@ -359,12 +367,12 @@ func (c *c11World) reqWriteControlFam(fam int) *c11Req {
 	case 9:
 		cfg.Request = "START" // no file type selected
 		cfg.Path = c.dataDir
-		r.kind = "WriteControl-START-no-type"
+		r.kind, r.isStart = "WriteControl-START-no-type", true
 		r.onErr = func() {}
 		r.onOK = func() { c.writing = c11WUnknown }
 	case 10:
 		cfg.Request, cfg.WriteLJH22 = "START", true // empty path: falls back to the last base path, if any
-		r.kind = "WriteControl-START-empty-path"
+		r.kind, r.isStart = "WriteControl-START-empty-path", true
 		r.onOK = func() { c.writing, c.commentOK = c11WOn, false }
 		r.onErr = func() {
 			if c.writing == c11WOff {
@@ -375,7 +383,7 @@ func (c *c11World) reqWriteControlFam(fam int) *c11Req {
 		cfg.Request = []string{"UNPAUSEx", "UNPAUSE ", "PAUSED now"}[simrt.Draw(3)]
 		r.kind = "WriteControl-malformed"
 	}
-	r.desc = fmt.Sprintf("%q ljh22=%v ljh3=%v off=%v path=%v", cfg.Request, cfg.WriteLJH22, cfg.WriteLJH3, cfg.WriteOFF, cfg.Path != "")
+	r.desc = fmt.Sprintf("%q ljh22=%v ljh3=%v off=%v path=%v map=%v", cfg.Request, cfg.WriteLJH22, cfg.WriteLJH3, cfg.WriteOFF, cfg.Path != "", c.mapMaybe)
 	r.do = func() error { return c.sc.WriteControl(cfg, &ok) }
 	return r
 }
@@ -568,4 +576,89 @@ func (c *c11World) reqStart() *c11Req {
 	r.desc = name
 	r.do = func() error { return c.sc.Start(&name, &ok) }
 	return r
+}
+
+// ---- TES map history (MapServer.Load / Unload): WriteControl START hands the loaded map to the source
+
+// pixelsWanted is the pixel count a map must have to fit the running source.
+func (c *c11World) pixelsWanted() int {
+	if c.kind == 3 && c.any == c.main {
+		return c.nchan / 2 // error + feedback channel per pixel
+	}
+	return c.nchan
+}
+
+func (c *c11World) reqMapLoad() *c11Req {
+	var ok bool
+	r := &c11Req{kind: "MapServer.Load"}
+	c.nmaps++
+	path := filepath.Join(c.env.Dir, fmt.Sprintf("map%d.cfg", c.nmaps))
+	want := c.pixelsWanted()
+	npix, what := want, "as many pixels as the source needs"
+	var text strings.Builder
+	wellFormed := true
+	switch fam := simrt.Draw(10); fam {
+	case 0, 1, 2:
+	case 3:
+		npix, what = want+1+simrt.Draw(3), "more pixels than the source needs"
+	case 4:
+		npix, what = want-1, "one pixel fewer than the source needs"
+	case 5:
+		npix, what = 2*want, "twice the pixels (a map counting error and feedback channels)"
+	default:
+		wellFormed = false
+	}
+	if npix < 1 {
+		npix = 1
+	}
+	matter := wellFormed && simrt.Draw(4) == 3 // legacy numbering 1, 3, 5, ...
+	if wellFormed {
+		fmt.Fprintf(&text, "spacing: %d\n", 100+10*simrt.Draw(50))
+		for i := 1; i <= npix; i++ {
+			n := i
+			if matter {
+				n = 2*i - 1
+			}
+			fmt.Fprintf(&text, "%8d %8d %8d c%dr%d\n", n, 290*(i%7), -520*(i/7), i/7, i%7)
+		}
+		if matter {
+			what += ", legacy channel numbering"
+		}
+		r.expect = c11OK
+		r.onOK = func() { c.mapMaybe = true }
+	} else {
+		switch simrt.Draw(5) {
+		case 0:
+			what, path = "file does not exist", filepath.Join(c.env.Dir, "no-such-map.cfg")
+		case 1:
+			what = "empty file"
+		case 2:
+			what = "no spacing line"
+			text.WriteString("1 0 0 c0r0\n2 0 520 c0r1\n")
+		case 3:
+			what = "garbage in the middle"
+			text.WriteString("spacing: 520\n1 0 0 c0r0\n2 0 x520 c0r1\n3 0 1040 c0r2\n")
+		default:
+			what = "channel numbers out of sequence"
+			text.WriteString("spacing: 520\n1 0 0 c0r0\n2 0 520 c0r1\n7 0 1040 c0r2\n4 0 1560 c0r3\n")
+		}
+		r.onOK = func() { c.mapMaybe = true }
+	}
+	if what != "file does not exist" {
+		if err := os.WriteFile(path, []byte(text.String()), 0644); err != nil {
+			simrt.Fail("harness.map", "harness:map-file", "%v", err)
+		}
+	}
+	r.desc = fmt.Sprintf("%d pixels for %d channels: %s", npix, c.nchan, what)
+	if !wellFormed {
+		r.desc = what
+	}
+	r.do = func() error { return c.sc.mapServer.Load(&path, &ok) }
+	return r
+}
+
+func (c *c11World) reqMapUnload() *c11Req {
+	var ok bool
+	zero := 0
+	return &c11Req{kind: "MapServer.Unload", expect: c11OK, do: func() error { return c.sc.mapServer.Unload(&zero, &ok) }, onOK: func() { c.mapMaybe = false }}
 }
